@@ -26,17 +26,24 @@ class StubEzsp:
                 raise InvalidCommandError("invalid command")
             raise EzspError("injected")
 
+    async def _slow(self):
+        if self.plan == "s":
+            await asyncio.sleep(8.0)   # answered, late but inside the command's own timeout
+
     async def nop(self):
         self.calls.append("nop")
+        await self._slow()
         self._maybe_fail(0)
 
     async def read_counters(self):
         self.calls.append("readCounters")
+        await self._slow()
         self._maybe_fail(0)
         return {}
 
     async def read_and_clear_counters(self):
         self.calls.append("readAndClearCounters")
+        await self._slow()
         self._maybe_fail(0)
         return {}
 
@@ -44,6 +51,7 @@ class StubEzsp:
         import bellows.types as t
 
         self.calls.append("getValue")
+        await self._slow()
         self._maybe_fail(1)
         if self.plan == "u":
             return (t.EzspStatus.ERROR_INVALID_ID, b"")
@@ -173,8 +181,36 @@ def run(ctx):
     wheres = []
 
     impl = asyncio.run(all_impl())
+    # feeds whose commands are answered late - 8 s each, inside the command timeout, 16 s for a feed of two commands: successful
+    # feeds like any other (they clear the run of failures, they never raise); on the virtual clock
+    from harness import vloop
+
+    for version in (4, 8, 14):
+        for w in ("s", "ss", "ts", "tttts", "ttttso", "ttttst", "sttttt"):
+            loop = vloop.VLoop().install()
+            try:
+                task = loop.create_task(run_word(version, w, [0] * len(w)))
+                for _ in range(20000):
+                    loop.settle()
+                    if task.done() or not loop.fire_next_timer():
+                        break
+                loop.settle()
+                if task.done() and not task.cancelled() and task.exception() is None:
+                    got = task.result()
+                else:
+                    got = [f"X{'hang' if not task.done() else type(task.exception()).__name__ if not task.cancelled() else 'cancelled'}:none"]
+                    if not task.done():
+                        task.cancel()
+                        loop.settle()
+            finally:
+                loop.uninstall()
+            cases.append((version, w))
+            cbplan.append(None)
+            wheres.append([0] * len(w))
+            impl.append(got)
+            ctx.count("slow-feed-words")
     # 'u' (feed succeeds, free-buffer value unavailable) is an `ok` outcome for the model and the property
-    model = ctx.driver([f"c19 run {v} 0 {w.replace('u', 'o').replace('i', 'e')}" for v, w in cases])  # for the model an invalid-command answer is an EZSP error
+    model = ctx.driver([f"c19 run {v} 0 {w.replace('u', 'o').replace('s', 'o').replace('i', 'e')}" for v, w in cases])  # for the model an invalid-command answer is an EZSP error
     nontrivial = 0
     for i, ((v, w), got) in enumerate(zip(cases, impl)):
         ctx.cov["evaluations"] += 1
